@@ -167,13 +167,22 @@ class Flight:
         chunk = 1000
         if batched:
             res.count("w3_batched_flights")
+            pkts = []
             for piece in pieces:
                 for o in range(0, len(piece), chunk):
                     part = piece[o : o + chunk]
-                    self.now += 0.0001
-                    self.client.receive_datagram(long_packet(hs_keys, "handshake", self.client_cid, self.scid, pn, f_crypto(off, part) + f_padding(4)), ADDR, now=self.now)
+                    pkts.append(long_packet(hs_keys, "handshake", self.client_cid, self.scid, pn, f_crypto(off, part) + f_padding(4)))
                     off += len(part)
                     pn += 1
+            if batched == "coalesced":
+                # ... or all of them coalesced into one UDP datagram (RFC 9000 12.2), every message in a packet of its own
+                res.count("w3_coalesced_flights")
+                self.now += 0.0001
+                self.client.receive_datagram(b"".join(pkts), ADDR, now=self.now)
+            else:
+                for pkt in pkts:
+                    self.now += 0.0001
+                    self.client.receive_datagram(pkt, ADDR, now=self.now)
             self.pump()
         while not batched and off < len(stream):
             part = stream[off : off + chunk]
@@ -204,7 +213,7 @@ class Flight:
         if legal_prefix and not expect_complete:
             res.count("obs_w3_legal_prefix_plus_trailing:" + ("completed" if completed else "not_completed"))
         if completed and not legal_prefix:
-            res.violation("w3:handshake-completed-on-illegal-flight:psk_ok=%s%s" % (m.psk_ok, ":batched-datagrams" if batched else ""),
+            res.violation("w3:handshake-completed-on-illegal-flight:psk_ok=%s%s" % (m.psk_ok, (":coalesced-packets" if batched == "coalesced" else ":batched-datagrams") if batched else ""),
                           "HandshakeCompleted after flight %s" % symbols, self.case, witness)
         if expect_complete and not completed:
             res.violation("w3:legal-flight-not-completed", "no HandshakeCompleted after %s" % symbols, self.case, witness)
@@ -249,10 +258,11 @@ def run_w3(batch, res):
         case = {"gen": "w3_one", "scenario": sc, "seq": symbols}
         completed, witness = Flight(sc, res, case).run(symbols)
         Flight(sc, res, dict(case, batched=True)).run(symbols, batched=True)
+        Flight(sc, res, dict(case, batched="coalesced")).run(symbols, batched="coalesced")
         if n < 2:
             res.sample({"gen": "w3", "scenario": {x: sc[x] for x in ("key_mode", "psk")}, "seq": symbols, "completed": completed,
                         "events": witness["events"], "terminated": witness["terminated"]}, limit=2)
 
 
 def run_w3_one(batch, res):
-    Flight(batch["scenario"], res, batch).run(batch["seq"], batched=bool(batch.get("batched")))
+    Flight(batch["scenario"], res, batch).run(batch["seq"], batched=batch.get("batched") or False)
